@@ -143,7 +143,15 @@ where
                 let run_seed = prng::mix(seed, pid, i as u64);
                 // a panic that escapes a run's own capture means the library handed back something the
                 // judging code considers structurally impossible: report it, do not die of it
-                let out = match crate::util::catch_res(|| f(i, run_seed)) {
+                // every run gets a fresh OS thread: whatever the code under test keeps in thread-local
+                // storage cannot travel from one run to the next, so a run stays a pure function of
+                // (index, seed) even for code that has such state
+                let joined = std::thread::scope(|s2| s2.spawn(|| crate::util::catch_res(|| f(i, run_seed))).join());
+                let res = match joined {
+                    Ok(r) => r,
+                    Err(_) => Err("the run's thread died".to_string()),
+                };
+                let out = match res {
                     Ok(o) => o,
                     Err(msg) => {
                         let mut o = RunOut::default();
@@ -333,6 +341,7 @@ pub fn write_replay(prop: &str, seed: u64, run: usize, v: &Violation) -> String 
         "property": prop,
         "verif_seed": seed,
         "run": run,
+        "tier": std::env::var("VERIF_TIER_EFFECTIVE").unwrap_or_else(|_| "quick".into()),
         "key": v.key,
         "class": v.class,
         "detail": v.detail,
